@@ -10,5 +10,5 @@ def run_families(res, prop, tier, fams, scn="daemon"):
     for f in fams:
         if f.get("tier") and f["tier"] != tier:
             continue
-        vk_run(res, f.get("scn", scn), src, rd, f["bounds"], f["total"], f.get("deadline", 600), f["name"], opts=f["opts"])
+        vk_run(res, f.get("scn", scn), src, rd, f["bounds"], f["total"], f.get("deadline", 600), f["name"], opts=f["opts"], qcap=f.get("qcap", 0))
     return src
